@@ -1577,8 +1577,12 @@ class Analyser:
                 if f not in s.fld:
                     continue
                 a = s.fld[f]
-                iv = s.iv(a) if iv is None else I.join(iv, s.iv(a))
                 o = s.obj.get(a)
+                if o is not None and o[0] == 'none':
+                    # None is not a number: it adds nothing to the numeric hull of the field (a read that passed `is not None` sees the numbers)
+                    iv = I.BOTTOM if iv is None else iv
+                else:
+                    iv = s.iv(a) if iv is None else I.join(iv, s.iv(a))
                 if o is not None and o[0] in ('tuple', 'seq'):
                     for x in (o[1] if o[0] == 'tuple' else (o[1],)):
                         seq_iv = s.iv(x) if seq_iv is None else I.join(seq_iv, s.iv(x))
